@@ -94,6 +94,7 @@ def handleLine (line : String) : String :=
     | "c13p" => C12.handlePermit args obs
     | "c13b" => C12.handleShutdownBusy args obs
     | "c12i" => C12.handleEmfileIdle args obs
+    | "c12s" => C12.handleStreams args obs
     | "c08s" => C12.handleStall args obs
     | "c19s" => C19.handleSet args obs
     | "c19w" => C19.handleWriter args obs
